@@ -121,6 +121,31 @@ func ReadWithDirectory(r io.ReaderAt, size int64, cd []byte) (*Directory, error)
 			}
 			if tag == zip64ExtraID {
 				e := extra[4 : 4+size]
+				needed := 0
+				for _, need := range []bool{needUSize, needCSize, needOffset} {
+					if need {
+						needed++
+					}
+				}
+				if int(size) == 8*needed || int(size) == 8*needed+4 {
+					// Only the fields that are saturated in the directory entry are
+					// present, in order (optionally followed by the disk number)
+					if needUSize {
+						f.UncompressedSize = binary.LittleEndian.Uint64(e)
+						e = e[8:]
+					}
+					if needCSize {
+						f.CompressedSize = binary.LittleEndian.Uint64(e)
+						e = e[8:]
+						needCSize = false
+					}
+					if needOffset {
+						f.Offset = binary.LittleEndian.Uint64(e)
+						needOffset = false
+					}
+					break
+				}
+				// otherwise assume all fields up to the record size are present
 				if needUSize && size >= 8 {
 					f.UncompressedSize = binary.LittleEndian.Uint64(e)
 				}
